@@ -54,7 +54,7 @@ type castSpec struct {
 	Priv   string  `json:"priv,omitempty"`   // pool key whose private half is attached ("" = public only)
 	KeyID  *string `json:"keyid,omitempty"`  // key id override
 	Broken string  `json:"broken,omitempty"` // kind of broken key material ("" = sound)
-	Form   string  `json:"form,omitempty"`   // "" = as loaded from PEM by the library; ed-seed | ed-full | literal | literal-alt
+	Form   string  `json:"form,omitempty"`   // "" = as loaded from PEM by the library; ed-seed | ed-full | literal | literal-alt | reused:<pool key loaded first>
 }
 
 type opSpec struct {
@@ -218,6 +218,23 @@ func buildCast(spec castSpec) castKey {
 func formKey(spec castSpec, kp lib.KeyPair) (intoto.Key, string) {
 	if spec.Priv != "" && spec.Priv != spec.Pub {
 		panic("key forms are for matching pairs")
+	}
+	if strings.HasPrefix(spec.Form, "reused:") {
+		// ONE Key variable: first loaded with another key's PRIVATE file, then with this key's PUBLIC
+		// file (library loading both times).  What results must be this key's public key.
+		first, ok := pool[strings.TrimPrefix(spec.Form, "reused:")]
+		if !ok || spec.Priv != "" {
+			panic("reused:<pool key> is a public-only form")
+		}
+		var k intoto.Key
+		if err := k.LoadKeyReaderDefaults(bytes.NewReader(first.PrivPEM)); err != nil {
+			panic(err)
+		}
+		if err := k.LoadKeyReaderDefaults(bytes.NewReader(kp.PubPEM)); err != nil {
+			// a load error is an observable too: the key stays what the failed load left behind
+			fmt.Fprintln(os.Stderr, "reused key object: second load failed:", err)
+		}
+		return k, "c04k_" + coqIdent(spec.Pub)
 	}
 	k := kp.Pub
 	edSeed, edFull := "", ""
@@ -825,6 +842,7 @@ type sigEntry struct {
 	KeyID string `json:"keyid"`
 	Sig   string `json:"sig"`
 	Cert  string `json:"cert,omitempty"`
+	Omit  bool   `json:"-"` // written to a file WITHOUT a keyid member (DSSE: the key id is an optional hint)
 }
 
 // the file as an adversary sees it
@@ -870,13 +888,13 @@ func (v fileView) load() (intoto.Metadata, error) {
 	}
 	var b []byte
 	if v.Wrapper == "dsse" {
-		type ds struct {
-			KeyID string `json:"keyid"`
-			Sig   string `json:"sig"`
-		}
-		dsigs := []ds{}
+		dsigs := []map[string]string{}
 		for _, s := range sigs {
-			dsigs = append(dsigs, ds{s.KeyID, s.Sig})
+			if s.Omit {
+				dsigs = append(dsigs, map[string]string{"sig": s.Sig})
+			} else {
+				dsigs = append(dsigs, map[string]string{"keyid": s.KeyID, "sig": s.Sig})
+			}
 		}
 		b, _ = json.Marshal(map[string]any{"payloadType": intoto.PayloadType, "payload": v.Payload, "signatures": dsigs})
 	} else {
@@ -1557,10 +1575,20 @@ func runCase(in caseInput) (res runResult) {
 			var raw []byte
 			label := c.Key.KeyID
 			good := false
+			unlabelled := false
 			switch op.Mut {
 			case "independent": // made with Go's crypto directly over the prescribed bytes: the library must accept it
 				raw = lib.SignRaw(signerKP.Signer, cur)
 				good = c.Spec.Broken == ""
+				recordSigned(c.Spec.Pub, contentOf(v, in.Payloads[curPayload].JSON))
+			case "independent-nokeyid", "independent-emptykeyid":
+				// another implementation's envelope: a valid signature whose entry has no keyid member /
+				// an empty one.  In DSSE the key id is an optional, unauthenticated hint: the signature
+				// must be accepted under the key that made it.
+				raw = lib.SignRaw(signerKP.Signer, cur)
+				label = ""
+				good = c.Spec.Broken == "" && w == "dsse"
+				unlabelled = true
 				recordSigned(c.Spec.Pub, contentOf(v, in.Payloads[curPayload].JSON))
 			case "stale": // over another content
 				scratch, _ := freshObject(w, payloads[op.Payload])
@@ -1579,7 +1607,7 @@ func runCase(in caseInput) (res runResult) {
 			default:
 				panic("unknown addsig kind " + op.Mut)
 			}
-			s := sigEntry{KeyID: label, Sig: encodeSig(w, raw)}
+			s := sigEntry{KeyID: label, Sig: encodeSig(w, raw), Omit: op.Mut == "independent-nokeyid"}
 			nv := v
 			if w == "legacy" {
 				// the file of another producer: the document as written, not as this library dumps it
@@ -1591,7 +1619,9 @@ func runCase(in caseInput) (res runResult) {
 				nv.Sigs = append(append([]sigEntry{}, v.Sigs...), s)
 			}
 			reload(nv)
-			if good && st == "T" {
+			if good && st == "T" && unlabelled {
+				signedNow = append(signedNow, op.Key+unlabelledMark)
+			} else if good && st == "T" {
 				signedNow = append(signedNow, op.Key)
 			} else {
 				dirty = true
@@ -1741,6 +1771,9 @@ func runCase(in caseInput) (res runResult) {
 //	F  if NO stored signature (decoded as the wrapper's format says) is valid under v's
 //	   public key over exactly the current prescribed bytes (crypto/* directly),
 //	otherwise the property is silent and the implementation's verdict is taken.
+// entries of signedNow at or above this mark stand for injected signatures WITHOUT key id
+const unlabelledMark = 1000
+
 func oracleVerdict(v castKey, cast []castKey, w string, cur []byte, raws [][]byte, signedNow []int, dirty bool, impl string) string {
 	if !v.Usable {
 		return "F"
@@ -1750,6 +1783,13 @@ func oracleVerdict(v castKey, cast []castKey, w string, cur []byte, raws [][]byt
 	if !dirty {
 		signed, ambiguous := false, false
 		for _, i := range signedNow {
+			if i >= unlabelledMark {
+				// a valid signature without key id (envelope): every verifier tries it
+				if cast[i-unlabelledMark].Spec.Pub == v.Spec.Pub {
+					signed = true
+				}
+				continue
+			}
 			s := cast[i]
 			if s.Key.KeyID == v.Key.KeyID {
 				if s.Spec.Pub == v.Spec.Pub && (s.matching() || s.Spec.Priv == "") {
@@ -2190,6 +2230,54 @@ func systematic(r *lib.Rng, all bool) []struct {
 					in.Ops = append(in.Ops, opSpec{Kind: "sign", Key: len(in.Cast) - 1})
 				})
 			})
+		}
+		// envelopes of another implementation: a valid signature whose entry has no / an empty / a foreign key id
+		if w == "dsse" {
+			for ki, kind := range []string{"link", "layout"} {
+				for _, m := range []string{"independent-nokeyid", "independent-emptykeyid", "forged-label"} {
+					for _, alone := range []bool{true, false} {
+						for _, front := range []bool{false, true} {
+							if alone && front {
+								continue
+							}
+							m, alone, front := m, alone, front
+							names := [][]string{{"ed1", "ecdsa256", "rsa2048"}, {"ecdsa384", "ed2", "ed1"}}[ki]
+							emit(w, kind, "dsse-signature-without-keyid", names, func(in *caseInput) {
+								outsider := len(in.Cast) - 1
+								in.Ops = nil
+								if !alone {
+									in.Ops = append(in.Ops, opSpec{Kind: "sign", Key: 0}) // a second entry with a proper key id
+								}
+								in.Ops = append(in.Ops, opSpec{Kind: "addsig", Key: outsider, Mut: m, Front: front}, opSpec{Kind: "dumpload"},
+									opSpec{Kind: "tamper", Payload: 1}, opSpec{Kind: "dumpload"})
+							})
+						}
+					}
+				}
+			}
+		}
+		// ONE Key variable loaded twice (another key's private file, then this key's public file) on the verifying side
+		{
+			reps := map[string][2]string{"rsa": {"rsa2048", "rsa3072"}, "ecdsa": {"ecdsa256", "ecdsa384"}, "ed25519": {"ed1", "ed2"}}
+			for _, t1 := range []string{"rsa", "ecdsa", "ed25519"} {
+				for _, t2 := range []string{"rsa", "ecdsa", "ed25519"} {
+					k1, k2 := reps[t1][0], reps[t2][0]
+					if t1 == t2 {
+						k1 = reps[t1][1]
+					}
+					other := "ed2"
+					if k1 == "ed2" || k2 == "ed2" || strings.HasPrefix(k2, "rsa") && false {
+						other = "ecdsa384"
+					}
+					if other == k1 || other == k2 {
+						other = "ed1"
+					}
+					emit(w, "link", "reused-key-object", []string{k2, other, k1}, func(in *caseInput) {
+						in.Cast = append(in.Cast, castSpec{Pub: k2, Form: "reused:" + k1})
+						in.Ops = []opSpec{{Kind: "sign", Key: 0}, {Kind: "dumpload"}, {Kind: "sign", Key: 1}, {Kind: "dumpload"}}
+					})
+				}
+			}
 		}
 		// control characters in signed strings (DSSE payloads need them escaped; the Metablock twin too)
 		{
